@@ -286,18 +286,17 @@ def r6_variance_to_weights(ctx):
                 okm = mask[0] == "cmp" and mask[1] == ">" and mask[2] == var and mask[3] == ("param", "tol")
                 strict_bad = mask[0] == "cmp" and mask[1] in (">=", "<", "<=") and mask[2] == var
                 sel = ("sub", var, mask)
-                want = ("binop", "/", ("call", ("attr", sel, "min"), (), (), 0), sel)
-                if okm and canon(val) == canon(want):
+                if okm and val[0] == "binop" and val[1] == "/" and Q.minmax_of(val[2]) == ("min", sel) and val[3] == sel:
                     ok = True
                 elif strict_bad:
                     ok, why = False, "the tolerance test is %s (documented: variance > tol)" % mask[1]
                 elif okm and val[0] == "binop" and val[1] == "/":
                     num, den = val[2], val[3]
-                    if num == sel and den[0] == "call" and den[1][0] == "attr" and den[1][2] in ("min", "max"):
-                        ok, why = False, "weights are var / %s(var) (inverted)" % den[1][2]
-                    elif num[0] == "call" and num[1][0] == "attr" and num[1][2] == "max":
+                    if num == sel and Q.minmax_of(den) is not None:
+                        ok, why = False, "weights are var / %s(var) (inverted)" % Q.minmax_of(den)[0]
+                    elif Q.minmax_of(num) is not None and Q.minmax_of(num)[0] == "max":
                         ok, why = False, "weights use the largest variance in the numerator"
-                    elif num[0] == "call" and num[1][0] == "attr" and num[1][2] == "min" and num[1][1] == var:
+                    elif Q.minmax_of(num) == ("min", var):
                         ok, why = False, "the minimum is taken over all variances including those at or below tol (can be 0)"
             ctx.check("R6", "%s|formula|%s" % (qn, tag), ok, "w[var > tol] = var[var > tol].min() / var[var > tol]", bad=why, fn=qn, undecided="store into the weights not recognised")
         else:
